@@ -23,6 +23,11 @@ def exec_DR(t):
         h = ((n + f) % 9 if n <= 52 else (n + f) % 4) if n <= 200 else 0
         def mk():
             # the format is reached directly or through a history that ends in it (the dtype string must follow the format)
+            if h == 0 and cx and n % 2 and n + 2 <= 52:
+                # a complex object that was computed, not declared: converted from a complex object of another size, or its conjugate;
+                # every imaginary part is zero, and it is a complex object all the same (its codes are complex)
+                src = Fxp(0j, s, n + 2, f)
+                return Fxp(src, s, n, f, dtype_notation=cfg) if f % 2 else Fxp(Fxp(0j, s, n, f, dtype_notation=cfg).conj(), s, n, f, dtype_notation=cfg)
             if h == 0:
                 return Fxp(v0, s, n, f, dtype_notation=cfg)
             if h == 1:
